@@ -231,6 +231,21 @@ func runC16(c *Ctx) {
 			}
 		}
 	}
+	// the container that collects the parsed records of a Consume call starts EMPTY (whatever capacity it is given)
+	for _, st := range fieldStores(fc, "rt.csvRecordsWriter", "records") {
+		okE := isNilConst(st.Val)
+		why := "value " + describe(st.Val)
+		for _, o := range originsOf(st.Val) {
+			if mk, isMk := o.V.(*ssa.MakeSlice); isMk {
+				k, isK := constInt(mk.Len)
+				okE = isK && k == 0
+				if !okE {
+					why = "the container is created with a non-zero LENGTH: it starts with that many empty records before the parsed ones"
+				}
+			}
+		}
+		c.obI("R16.2", st, "destination-container-starts-empty", okE, "the in-memory container a consumer pipes the parsed records into starts with length 0 (records delivered = records parsed)", why)
+	}
 	c.min("R16.2", 3)
 
 	// R16.3 retention
@@ -261,6 +276,39 @@ func runC16(c *Ctx) {
 		c.obI("R16.3", call, "record-retained-as-copy", okC, "a record handed to the in-memory container is retained only as a copy: with csv.Reader.ReuseRecord the reader reuses the backing array, so retaining the slice itself makes all delivered records alias the last one", "the record slice itself is retained")
 	}
 	c.obF("R16.3", wr, "retains", nRet == 1, "the container retains records", "")
+	// the same holds wherever the codec itself reads record by record: a record returned by Read is handed on (written)
+	// or copied, never retained as it is
+	for _, fn := range p.LibFuncs("rt") {
+		for _, in := range instrs(fn) {
+			call, ok := in.(*ssa.Call)
+			if !ok {
+				continue
+			}
+			n := calleeName(&call.Call)
+			if n != "(*encoding/csv.Reader).Read" && n != "(rt.CSVReader).Read" {
+				continue
+			}
+			rec0 := resultOf(call, 0)
+			if rec0 == nil {
+				continue
+			}
+			for _, in2 := range instrs(fn) {
+				ap, ok := in2.(*ssa.Call)
+				if !ok || calleeName(&ap.Call) != "builtin append" || typeStr(ap.Type()) != "[][]string" {
+					continue
+				}
+				elems, isLit := sliceLitElems(ap.Call.Args[1])
+				if !isLit {
+					continue
+				}
+				for _, e := range elems {
+					if e == rec0 {
+						c.obI("R16.3", ap, "read-record-retained-as-copy", false, "a record returned by a reader's Read is never retained as it is (ReuseRecord lets the reader overwrite it on the next Read)", "the slice returned by Read is appended to a record table in "+fnName(fn))
+					}
+				}
+			}
+		}
+	}
 
 	// R16.4 errors, EOF, Flush/Error, pipe ends
 	eofAbsorb := func(ev ssa.Value) EdgePred {
